@@ -669,7 +669,7 @@ func damage(dir, rep, kind string, rng *rand.Rand) (string, int, error) {
 		if curErr == nil {
 			plain, _ = gunzip(cur)
 		}
-		switch v := rng.Intn(5); {
+		switch v := rng.Intn(6); {
 		case v == 0:
 			b := make([]byte, 1+rng.Intn(300))
 			rng.Read(b)
@@ -682,6 +682,9 @@ func damage(dir, rep, kind string, rng *rand.Rand) (string, int, error) {
 			return "gzip-of-text", len(b), os.WriteFile(gzp, gz(b), 0o644)
 		case v == 2:
 			return "gzip-of-empty-object", 0, os.WriteFile(gzp, gz([]byte("{}")), 0o644)
+		case v == 4:
+			// a well-formed record of another shape: no segment table
+			return "gzip-of-record-without-segments", 0, os.WriteFile(gzp, gz([]byte(`{"id":"`+id+`","contentType":"video","mediaTimescale":90000,"initURI":"`+id+`/init.mp4","mediaURI":"`+id+`/$Number$.m4s","segments":[]}`)), 0o644)
 		case v == 3 && len(plain) > 2:
 			off := 1 + rng.Intn(len(plain)-1)
 			return "gzip-of-json-prefix", off, os.WriteFile(gzp, gz(plain[:off]), 0o644)
@@ -712,6 +715,7 @@ type worker struct {
 	memo   *parseMemo
 
 	instances, cacheRead, requests int
+	fullWindows                    int
 	tStart, tObs                   time.Duration
 	outcomes                       map[string]int
 	samples                        []any
@@ -791,6 +795,9 @@ func (wk *worker) emitInstance(inst int, write bool, root string, s *srv.S, errS
 					}
 					tf = append(tf, x.tfdt)
 					du = append(du, x.dur)
+				}
+				if len(tf) >= a.V.N+1 {
+					wk.fullWindows++
 				}
 				wk.w.Emit(tr.E{"ev": "tl", "inst": inst, "asset": a.Name, "rep": rt.ID, "N": a.V.N, "n0": 0, "tfdt": tf, "dur": du})
 			}
@@ -1078,7 +1085,7 @@ func Main(args []string) error {
 			return e
 		}
 	}
-	events, instances, cacheRead, requests := 0, 0, 0, 0
+	events, instances, cacheRead, requests, fullWindows := 0, 0, 0, 0, 0
 	var tStart, tObs time.Duration
 	outcomes := map[string]int{}
 	var traces []string
@@ -1090,6 +1097,7 @@ func Main(args []string) error {
 		instances += wk.instances
 		cacheRead += wk.cacheRead
 		requests += wk.requests
+		fullWindows += wk.fullWindows
 		tStart += wk.tStart
 		tObs += wk.tObs
 		for o, c := range wk.outcomes {
@@ -1116,7 +1124,7 @@ func Main(args []string) error {
 	}
 	tr.PrintStats(map[string]any{"scenarios": len(sel), "behaviours_available": len(all), "events": events, "distinct": len(distinct),
 		"samples": samples, "instances": instances, "cache_read_instances": cacheRead, "requests": requests, "pool": wks[0].pool.n + 1,
-		"outcomes": outcomes, "assets": names, "traces": traces, "probe_cache_is_read": probe, "workers": len(wks),
+		"outcomes": outcomes, "assets": names, "traces": traces, "probe_cache_is_read": probe, "full_contig_windows": fullWindows, "workers": len(wks),
 		"cpu_start_s": tStart.Seconds(), "cpu_observe_s": tObs.Seconds()})
 	return nil
 }
